@@ -57,6 +57,12 @@ func (e *Engine) newCtx(fn *ssa.Function, opts *fnOpts, st *fnState) *FnCtx {
 	if c.con != nil && c.con.Flags["json"] {
 		c.jsonMode = true
 	}
+	if c.con != nil && len(c.con.Using) > 0 {
+		c.using = map[string]bool{}
+		for _, n := range c.con.Using {
+			c.using[n] = true
+		}
+	}
 	return c
 }
 
@@ -74,6 +80,9 @@ func (c *FnCtx) finalize() {
 		changed = false
 		for _, ax := range c.eng.specs.Axioms {
 			if done[ax] {
+				continue
+			}
+			if c.using != nil && !c.using[ax.Name] {
 				continue
 			}
 			names := map[string]bool{}
@@ -159,6 +168,9 @@ func (c *FnCtx) addLemmas() {
 	for _, lem := range c.eng.specs.Lemmas {
 		if "lemma."+lem.Name == c.key {
 			continue // a lemma is not available in its own proof (only its induction hypothesis)
+		}
+		if c.using != nil && !c.using[lem.Name] {
+			continue
 		}
 		names := map[string]bool{}
 		for _, cl := range lem.Clauses {
